@@ -51,3 +51,45 @@ class IfThenElse(Contract):
     def counts(self, c, cond, t, f):
         both_int = isinstance(t, int) and isinstance(f, int)
         return (0, 0, 0) if both_int else (0, 1, 1)
+
+
+
+@register
+class IfThenElseList(Contract):
+    """if_then_else(cond, [..], [..]): element-wise selection into a NEW list; the operand lists
+    (and nested lists) are left exactly as they were."""
+    name = "pysnark.branching:if_then_else#list"
+    modules = ("pysnark.runtime", "pysnark.boolean", "pysnark.fixedpoint", "pysnark.branching")
+    vprops = ("C05", "C09")
+    sprops = ("C02", "C09")
+    fprops = ("C09",)
+
+    def configs(self, tier):
+        return [dict(mode=m) for m in ("plain", "g0")]
+
+    def setup(self, c, cfg):
+        apply_mode(c, cfg["mode"])
+        t = [c.operand("t0"), c.public_int("kt1"), [c.operand("t2"), c.operand("t3")]]
+        f = [c.operand("f0"), c.operand("f1"), [c.public_int("kf2"), c.operand("f3")]]
+        self._t, self._f = t, f
+        self._tcopy = [t[0], t[1], list(t[2])]
+        self._fcopy = [f[0], f[1], list(f[2])]
+        self._tinner, self._finner = t[2], f[2]
+        return c.w.modules["pysnark.branching"].if_then_else, (c.operand_bool("c"), t, f), {}
+
+    def use_stub(self, c, *a):
+        return False
+
+    def post(self, c, r, cond, t, f):
+        flat = lambda x: [x[0], x[1], x[2][0], x[2][1]]
+        same = lambda a, b: all(u is v for u, v in zip(flat(a), flat(b)))
+        d = {"V.shape": isinstance(r, list) and len(r) == 3 and isinstance(r[2], list) and len(r[2]) == 2}
+        if not d["V.shape"]:
+            return d
+        cv = c.v(cond)
+        d["V.values"] = And(*[Eq(_ov(c, x), If(cv == 1, _ov(c, a), _ov(c, b))) for x, a, b in zip(flat(r), flat(self._tcopy), flat(self._fcopy))])
+        d["V.inv"] = And(*[c.inv(x) for x in flat(r) if not isinstance(x, int)])
+        d["F.true_branch_list_unchanged"] = t is self._t and t[2] is self._tinner and same(t, self._tcopy)
+        d["F.false_branch_list_unchanged"] = f is self._f and f[2] is self._finner and same(f, self._fcopy)
+        d["F.result_is_new_list"] = r is not t and r is not f and r[2] is not t[2] and r[2] is not f[2]
+        return d
